@@ -124,6 +124,22 @@ Example ex_fnmatch : fnmatchb "b.x" (PPrefix "b.") = true /\ fnmatchb "a" (PPref
                      fnmatchb "a" (PExact "a") = true /\ fnmatchb "ab" (PExact "a") = false /\ fnmatchb "zz" (PPrefix "") = true.
 Proof. vm_compute. auto. Qed.
 
+(* the creation race is repaired on the current tree: hard obligation + unconditional corollaries *)
+Lemma gen_atomic_create : TransportGen.atomic_create = true.
+Proof. reflexivity. Qed.
+Theorem C14_conservation_now :
+  forall pre ths sch, Forall initial_th ths ->
+  let s := run facts sch (init pre ths) in
+  Permutation (appended s) (held s ++ reachable_queued s) /\ NoDup (held s ++ reachable_queued s).
+Proof. exact (C14_conservation gen_atomic_create). Qed.
+Theorem C14_exactly_once_at_end_now :
+  forall pre ths sch, Forall initial_th ths ->
+  let s := run facts sch (init pre ths) in
+  all_done s = true ->
+  Permutation (appended s) (delivered s ++ reachable_queued s) /\ NoDup (delivered s) /\ lost s = [].
+Proof. exact (C14_exactly_once_at_end gen_atomic_create). Qed.
+Print Assumptions C14_conservation_now.
+Print Assumptions C14_exactly_once_at_end_now.
 Print Assumptions C14_conservation.
 Print Assumptions C14_exactly_once_at_end.
 Print Assumptions C14_no_foreign.
